@@ -26,6 +26,7 @@ Inductive expr :=
 | ETernary (cond a : expr) (alt : option expr)   (* a if cond else alt *)
 | EFilterL (e : expr) (f : lfname) (param : str) (iparam : option str) (body : expr)
                                        (* e | f: param => body,  e | f: (param, iparam) => body *)
+| ETemplate (parts : list expr)        (* "a ${x | f} b": literal chunks and interpolated expressions *)
 with seg :=
 | SKey (k : str)
 | SIdx (i : Z)
@@ -50,6 +51,7 @@ Inductive node :=
 | NRaw (text : str)
 | NComment
 | NWith (args : list (str * expr)) (body : list node)
+| NLiquid (body : list node)            (* {% liquid ... %}: line statements *)
 | NRender (name : str) (var : option (bool * expr * option str)) (args : list (str * expr))
 | NInclude (name : expr) (var : option (expr * option str)) (args : list (str * expr))
 | NMacro (name : str) (params : list (str * option expr)) (body : list node)
@@ -86,6 +88,7 @@ Fixpoint node_blank (n : node) : bool :=
   | NRaw text => match text with [] => true | _ => false end
   | NComment => true
   | NWith _ body => all body
+  | NLiquid body => all body
   | NRender _ _ _ | NInclude _ _ _ => false
   | NMacro _ _ _ => true
   | NCall _ _ _ => false
